@@ -34,6 +34,19 @@ theorem C12_iff_applies (fs : List Tok) (l : List A) : ∀ a ∈ l.map (addIff f
   obtain ⟨b, _, rfl⟩ := ha
   rw [addIff_iff]; simp [hf]
 
+/-- **C12 (status on a uses or augment).** applies to every node introduced that has no status of its own; a node
+    that has one keeps it -/
+theorem C12_status_applies (st : Nat) (a : A) : (addSt st a).meta.st = some (a.meta.st.getD st) := by
+  unfold addSt
+  cases h : a.meta.st with
+  | some s => simp [h]
+  | none => cases a <;> simp_all [A.setMeta, A.meta]
+
+theorem C12_uses_status (env : GEnv) (ns : Tok) (fuel : Nat) (st : Nat) (g : G) :
+    expandOne env ns (fuel + 1) (.stat st g) = (expandOne env ns fuel g).map fun r => r.map (addSt st) := by
+  simp only [expandOne]
+  cases expandOne env ns fuel g <;> rfl
+
 theorem C12_refine_keeps_iff (a : A) (p : RProp) (v : Bytes) : (setRefine a p v).meta.iff = a.meta.iff :=
   (setRefine_ns_iff a p v).2
 
